@@ -5,7 +5,7 @@ cd /verif
 out=/dev/shm/seedall; mkdir -p $out
 for d in seeded/C*/; do
   id=$(basename $d)
-  checks=$(python3 -c "import json;print(' '.join(json.load(open('$d/meta.json'))['detected_by']))")
+  checks=$(python3 -c "import json;m=json.load(open('$d/meta.json'));print(' '.join(m['detected_by']) or m['property'])")
   tmp=/dev/shm/seedall/$id.dir; rm -rf $tmp; mkdir -p $tmp; cp $d/patch.diff $tmp/; cp $d/demo_test.go.txt $tmp/demo_test.go
   tool/seedcheck.sh $tmp $checks > $out/$id.txt 2>&1
   rm -rf $tmp
